@@ -39,6 +39,10 @@ type c08 struct {
 	allowed  map[string]bool
 	maxDigit []int
 	initV    []Violation
+	// seen: outcome of every delivered source so far in this process. Compile is a
+	// function of the bytes: a source rejected once and accepted later (or the
+	// reverse) means a failed parse left something behind.
+	seen map[uint64]string
 }
 
 func init() { register(&c08{}) }
@@ -69,7 +73,7 @@ func (c *c08) Assumptions() []string {
 }
 
 func (c *c08) ProbeNames() []string {
-	return []string{"eof_inside_string_literal", "eof_inside_regex_literal", "eof_inside_block_comment", "eof_inside_transform_body", "accepted_after_fault", "rejected_after_fault", "read_error_injected", "reader_polled_after_eof", "path_reader", "path_string", "path_file", "holes_checked_programs"}
+	return []string{"eof_inside_string_literal", "eof_inside_regex_literal", "eof_inside_block_comment", "eof_inside_transform_body", "accepted_after_fault", "rejected_after_fault", "read_error_injected", "reader_polled_after_eof", "path_reader", "path_string", "path_file", "holes_checked_programs", "same_source_delivered_again"}
 }
 
 func (c *c08) SweepPrefix(phase string, i uint64) []uint64 {
@@ -115,6 +119,7 @@ func (c *c08) Init(env *Env) error {
 		return err
 	}
 	c.allowed = map[string]bool{}
+	c.seen = map[uint64]string{}
 	var total uint64
 	for _, it := range corp.Items {
 		simrt.Reset(1, nil, 3)
@@ -274,6 +279,10 @@ func tokenBoundaries(s string) []int {
 	}
 	return append(b, len(s))
 }
+
+// non-ASCII runes a damaged stream may carry: digits and letters of other scripts,
+// separators, a byte order mark, an unfinished sequence
+var oddRunes = []string{"\u0663", "\uff13", "\u0969", "\u00e9", "\u03a9", "\u2028", "\u00a0", "\ufeff", "\U0001F600", "\xd9", "\u0661\u0662", "\u2160"}
 
 var specials = []byte{0, '\'', '"', '\\', '@', '/', '-', '(', ')', '{', '}'}
 
@@ -443,7 +452,17 @@ func (c *c08) Run(ctx *RunCtx) *RunResult {
 			}
 			k := t.Draw(n)
 			var nb byte
-			switch t.Draw(3) {
+			mode := t.Draw(4)
+			if mode == 3 {
+				// a byte replaced by a multi-byte sequence: a non-ASCII rune
+				r := oddRunes[t.Draw(len(oddRunes))]
+				src = append(append(append([]byte{}, src[:k]...), []byte(r)...), src[k+1:]...)
+				plan = append(plan, c08fault{Kind: "corruption-rune", At: k, Len: len(r)})
+				ctx.Count("fault_corruption_rune", 1)
+				changed = true
+				continue
+			}
+			switch mode {
 			case 0:
 				nb = src[k] ^ (1 << uint(t.Draw(8)))
 			case 1:
@@ -548,6 +567,18 @@ func (c *c08) Run(ctx *RunCtx) *RunResult {
 	res.EventHash = mix(hashStr(path), hashStr(delivered), uint64(errAt+1), hashStr(out.Class+out.Detail))
 	res.Sig = mix(hashStr(path), hashStr(delivered), uint64(errAt+1))
 	where := fmt.Sprintf("base %q, faults %v, path %s: delivered source %q", trunc(it.Name, 40), plan, path, trunc(delivered, 300))
+	if out.Class == "ok" || out.Class == "error" {
+		hk := mix(hashStr(delivered), uint64(errAt+1))
+		cls := out.Class
+		if prev, ok := c.seen[hk]; ok {
+			ctx.Count("same_source_delivered_again", 1)
+			if prev != cls {
+				addV("function-of-the-bytes", "compile-outcome-depends-on-history:"+prev+"->"+cls, where+fmt.Sprintf(" => %s now, but the same bytes gave %q earlier in this process: %s", cls, prev, trunc(out.String(), 200)))
+			}
+		} else if len(c.seen) < 2000000 {
+			c.seen[hk] = cls
+		}
+	}
 	switch out.Class {
 	case "panic":
 		addV("no-panic", "compile-panic:"+panicKey(out.Detail), where+" => panic "+out.Detail)
